@@ -186,6 +186,7 @@ func (c *shardedMapOf[V]) ExpireAll(ctx context.Context) {
 		b.Unlock()
 	}
 
+	c.t.expirationsAdded(cnt)
 	c.t.NotifyExpiredAll(ctx, start, cnt)
 }
 
@@ -355,6 +356,10 @@ func (c *ShardedMapOf[V]) Restore(r io.Reader) (int, error) {
 		b.Lock()
 		b.data[h] = &e
 		b.Unlock()
+
+		if e.E != 0 {
+			c.t.expirationsAdded(1)
+		}
 
 		n++
 	}
